@@ -382,7 +382,8 @@ class _Builder:
             t, f = self.cond(s.test, [(head, 'n')])
             self.frames.append(fr)
             saved = self.ctx
-            self.ctx = self.ctx + (('loop', s),)
+            if not getattr(s, '_synthetic_once', False):      # the once-only wrapper of an inlined helper (sa/inline.py) is not a loop
+                self.ctx = self.ctx + (('loop', s),)
             body = self.seq(s.body, t)
             self.ctx = saved
             self.frames.pop()
